@@ -57,45 +57,14 @@ fn mk_vtx(frames: usize, data: &[u8; 42], player_frequency: u8) -> Vtx {
     }
 }
 
-/// (frames, data, rate, pf, spf): `frames` and `pf` literal per case, samples per frame 1..3 symbolic via
-/// rate = spf*pf + extra (so that floor(rate/pf) == spf also for rates that are not multiples)
-fn setup(frames: usize, pf: u8) -> (usize, [u8; 42], usize, u8, usize) {
+/// All structure (frame count, player frequency, samples per frame, request length) is literal at the
+/// call sites - with a symbolic request length the 14-register loops and the log index became symbolic
+/// and a single query needed > 14 GB.  The register bytes stay fully symbolic.
+fn mono_case(frames: usize, pf: u8, spf: usize, extra: usize, n: usize) {
     let data: [u8; 42] = kani::any();
-    let spf: usize = kani::any();
-    kani::assume(spf >= 1 && spf <= 3);
-    let extra: usize = kani::any();
-    kani::assume(extra < pf as usize);
     let rate = spf * pf as usize + extra;
-    (frames, data, rate, pf, spf)
-}
-
-// @harness
-// @prop C20
-// @tier quick
-// @timeout 1200
-// @fn Player::new; Player::play (mono path, S = f64); Player::update_ay; Vtx::frame_registers
-// @sym (frame count, player frequency) from the class {(1,50),(2,1),(3,50),(3,2)} as literals, all register bytes, sample rate = spf*pf + (0..pf-1) with spf 1..3 symbolic, request length 0..10
-// @assert mono playback: frame k's fourteen register values are written exactly at output sample k*floor(rate/player_frequency), registers 0..13 in order, R13 skipped iff its value is 0xFF; total samples produced is frames*spf, after which play() returns 0; sample i of the stream is the chip's i-th sample
-// @bound <= 3 frames x <= 3 samples per frame, request <= 10 samples (unwind 16)
-#[kani::proof]
-#[kani::unwind(16)]
-fn c20_mono_schedule() {
-    let sel: u8 = kani::any();
-    kani::assume(sel < 4);
-    match sel {
-        0 => mono_case(1, 50),
-        1 => mono_case(2, 1),
-        2 => mono_case(3, 50),
-        _ => mono_case(3, 2),
-    }
-}
-
-fn mono_case(frames_lit: usize, pf_lit: u8) {
-    let (frames, data, rate, pf, spf) = setup(frames_lit, pf_lit);
     let mut p = Player::<RecAy>::new(mk_vtx(frames, &data, pf), rate, false);
     kani::assert(p.samples_per_frame == spf, "c20.spf_is_floor_rate_over_player_frequency");
-    let n: usize = kani::any();
-    kani::assume(n <= 10);
     let mut buf = [-1.0f64; 10];
     let got = p.play(&mut buf[..n]);
     let total = frames * spf;
@@ -109,34 +78,81 @@ fn mono_case(frames_lit: usize, pf_lit: u8) {
         }
         i += 1;
     }
-    // register schedule: a symbolic log entry must be the write of a frame at its first sample
     kani::assert(!p.ay.overflow, "c20.log_fits");
-    let j: usize = kani::any();
-    kani::assume(j < p.ay.log_len);
-    let (at, reg, val) = p.ay.log[j];
-    let k = at as usize / spf;
-    kani::assert(at as usize % spf == 0 && k < frames && reg < 14, "c20.mono.writes_only_at_frame_starts");
-    kani::assert(val == data[k * 14 + reg as usize], "c20.mono.value_is_frame_k_register");
-    kani::assert(!(reg == 13 && val == 0xFF), "c20.mono.r13_ff_means_untouched");
-    // completeness: frames started so far each wrote 14 (or 13) registers
+    // walk the log against the schedule: frame k at sample k*spf, registers 0..13 in order, R13 skipped iff 0xFF
     let started = if got == 0 { 0 } else { (got - 1) / spf + 1 };
-    let mut want = 0;
+    let mut j = 0usize;
     let mut f = 0;
     while f < 3 {
         if f < started {
-            want += if data[f * 14 + 13] == 0xFF { 13 } else { 14 };
+            let mut r = 0;
+            while r < 14 {
+                let v = data[f * 14 + r];
+                if !(r == 13 && v == 0xFF) {
+                    kani::assert(j < p.ay.log_len, "c20.mono.fourteen_values_per_started_frame");
+                    if j < p.ay.log_len {
+                        kani::assert(p.ay.log[j] == ((f * spf) as u32, r as u8, v), "c20.mono.frame_k_registers_at_sample_k_times_spf");
+                    }
+                    j += 1;
+                }
+                r += 1;
+            }
         }
         f += 1;
     }
-    // a request that ends exactly on a frame boundary does not start the next frame
-    kani::assert(p.ay.log_len == want, "c20.mono.fourteen_values_per_started_frame");
+    kani::assert(p.ay.log_len == j, "c20.mono.no_other_register_writes");
     if got < n {
         let mut more = [0f64; 2];
         kani::assert(p.play(&mut more) == 0, "c20.mono.end_is_sticky");
     }
-    kani::cover!(frames == 3 && spf == 3 && n == 10 && got == 9, "whole 3x3 track then end");
-    kani::cover!(started == 2 && data[13] == 0xFF && data[27] != 0xFF, "R13 skipped in frame 0 only");
-    kani::cover!(rate % pf as usize != 0, "rate not a multiple of the player frequency");
+    kani::cover!(data[13] == 0xFF && (frames < 2 || data[27] != 0xFF), "R13 skipped in frame 0 only");
+}
+
+// @harness
+// @prop C20
+// @tier quick
+// @timeout 1200
+// @fn Player::new; Player::play (mono path, S = f64); Player::update_ay; Vtx::frame_registers
+// @sym all register bytes of up to 3 frames; structure from literal cases (frames, player frequency, samples/frame, rate remainder, request length): (1,50,1,0,3) (2,1,3,0,10) (3,50,3,49,10) (3,2,2,1,5) (2,50,2,7,4) (3,1,1,0,2)
+// @assert mono playback: frame k's fourteen register values are written exactly at output sample k*floor(rate/player_frequency), registers 0..13 in order, R13 skipped iff its value is 0xFF, nothing else is written; total samples produced is frames*spf, after which play() returns 0 and keeps returning 0; sample i of the stream is the chip's i-th sample; the rest of the buffer is untouched
+// @bound <= 3 frames x <= 3 samples per frame, request <= 10 samples (unwind 16); structure enumerated, register data symbolic
+#[kani::proof]
+#[kani::unwind(16)]
+fn c20_mono_schedule() {
+    mono_case(1, 50, 1, 0, 3);
+    mono_case(2, 1, 3, 0, 10);
+    mono_case(3, 50, 3, 49, 10);
+    mono_case(3, 2, 2, 1, 5);
+    mono_case(2, 50, 2, 7, 4);
+    mono_case(3, 1, 1, 0, 2);
+}
+
+fn chunk_case(frames: usize, pf: u8, spf: usize, stereo: bool, n: usize, a: usize) {
+    let data: [u8; 42] = kani::any();
+    let rate = spf * pf as usize;
+    let mut p1 = Player::<RecAy>::new(mk_vtx(frames, &data, pf), rate, stereo);
+    let mut p2 = Player::<RecAy>::new(mk_vtx(frames, &data, pf), rate, stereo);
+    let mut whole = [-1.0f64; 8];
+    let g = p1.play(&mut whole[..n]);
+    let mut part = [-1.0f64; 8];
+    let g1 = p2.play(&mut part[..a]);
+    // the caller continues where the first call stopped writing
+    let g2 = p2.play(&mut part[g1..n]);
+    kani::assert(g1 + g2 == g, "c20.chunk.counts_add_up");
+    let mut i = 0;
+    while i < 8 {
+        kani::assert(part[i] == whole[i], "c20.chunk.same_stream");
+        i += 1;
+    }
+    kani::assert(p1.ay.log_len == p2.ay.log_len, "c20.chunk.same_number_of_register_writes");
+    let mut j = 0;
+    while j < LOG_CAP {
+        if j < p1.ay.log_len {
+            kani::assert(p1.ay.log[j] == p2.ay.log[j], "c20.chunk.same_register_schedule");
+        }
+        j += 1;
+    }
+    kani::cover!(g > 0, "something was played");
 }
 
 // @harness
@@ -144,53 +160,17 @@ fn mono_case(frames_lit: usize, pf_lit: u8) {
 // @tier quick
 // @timeout 1500
 // @fn Player::play (mono and stereo paths); Player::update_ay
-// @sym track as in c20_mono_schedule, mono/stereo, request length n <= 8 elements, split point a <= n (odd splits in stereo included)
-// @assert the sample stream and the register-write schedule are identical whether the caller asks for n elements at once or for a then n-a: outputs concatenate (in stereo an odd-length request leaves its trailing element untouched and loses nothing), returned counts add up, logs equal
-// @bound <= 3 frames x <= 3 samples/frame, n <= 8 (unwind 16)
+// @sym all register bytes; structure from literal cases (frames, player frequency, samples/frame, stereo, request length n, split point a): mono (2,50,3,n=7,a=1) (3,1,2,n=8,a=5) (2,2,1,n=3,a=0); stereo (2,50,2,n=8,a=3 odd) (3,50,1,n=7 odd,a=2) (2,1,3,n=8,a=7 odd) (3,2,1,n=8,a=6)
+// @assert the sample stream and the register-write schedule are identical whether the caller asks for n elements at once or for a then the rest: outputs concatenate (in stereo an odd-length request leaves its trailing element untouched and loses nothing), returned counts add up, register logs equal
+// @bound <= 3 frames x <= 3 samples/frame, n <= 8 (unwind 50 for the log comparison); structure enumerated, register data symbolic
 #[kani::proof]
-#[kani::unwind(16)]
+#[kani::unwind(50)]
 fn c20_chunking_independence() {
-    let sel: u8 = kani::any();
-    kani::assume(sel < 3);
-    match sel {
-        0 => chunk_case(1, 50),
-        1 => chunk_case(2, 2),
-        _ => chunk_case(3, 1),
-    }
-}
-
-fn chunk_case(frames_lit: usize, pf_lit: u8) {
-    let (frames, data, rate, pf, _spf) = setup(frames_lit, pf_lit);
-    let stereo: bool = kani::any();
-    let mut p1 = Player::<RecAy>::new(mk_vtx(frames, &data, pf), rate, stereo);
-    let mut p2 = Player::<RecAy>::new(mk_vtx(frames, &data, pf), rate, stereo);
-    let n: usize = kani::any();
-    let a: usize = kani::any();
-    kani::assume(n <= 8 && a <= n);
-    // in stereo a caller must hand over whole (left,right) pairs to make progress: split on a pair
-    // boundary or not - both are allowed by the API; an odd `a` just leaves one element unused
-    let mut whole = [-1.0f64; 8];
-    let g = p1.play(&mut whole[..n]);
-    let mut part = [-1.0f64; 8];
-    let g1 = p2.play(&mut part[..a]);
-    // second call continues where the first one stopped writing
-    let g2 = p2.play(&mut part[g1..n]);
-    kani::assert(g1 + g2 == g, "c20.chunk.counts_add_up");
-    let mut i = 0;
-    while i < 8 {
-        if i < g1 + g2 {
-            kani::assert(part[i] == whole[i], "c20.chunk.same_stream");
-        }
-        i += 1;
-    }
-    // same register schedule up to what was played
-    let j: usize = kani::any();
-    kani::assume(j < p2.ay.log_len);
-    kani::assert(j < p1.ay.log_len || g1 + g2 < g, "c20.chunk.no_extra_writes");
-    if j < p1.ay.log_len {
-        kani::assert(p1.ay.log[j] == p2.ay.log[j], "c20.chunk.same_register_schedule");
-    }
-    kani::cover!(stereo && a % 2 == 1 && g2 > 0, "odd split in stereo");
-    kani::cover!(!stereo && a == 1 && n == 8 && g == 8, "length-1 first chunk");
-    kani::cover!(g < n, "track ends inside the request");
+    chunk_case(2, 50, 3, false, 7, 1);
+    chunk_case(3, 1, 2, false, 8, 5);
+    chunk_case(2, 2, 1, false, 3, 0);
+    chunk_case(2, 50, 2, true, 8, 3);
+    chunk_case(3, 50, 1, true, 7, 2);
+    chunk_case(2, 1, 3, true, 8, 7);
+    chunk_case(3, 2, 1, true, 8, 6);
 }
